@@ -39,6 +39,7 @@ POLICY = Policy(io_while_ready=True, early_timers=False, timer_before_io=True, t
 G: dict[str, Any] = {}
 REQ = bytes.fromhex("22f190")
 REPLY = bytes.fromhex("62f190aabbcc")
+PENDING = bytes.fromhex("7f2278")
 ACK_TIME = {"tcp": 0.0, "unix": 0.0, "doip": 2.0, "hsfz": 1.0}
 URI = {
     "tcp": "tcp-lines://192.0.2.1:1234",
@@ -68,7 +69,8 @@ def worker_init() -> None:
 class GoodPeer(Peer):
     """answers correctly until its output budget (the cut offset) is used up"""
 
-    def __init__(self, proto: str, cut: int | None, kind: str, st: dict[str, Any]) -> None:
+    def __init__(self, proto: str, cut: int | None, kind: str, st: dict[str, Any], pending: bool = False) -> None:
+        self.pending = pending
         self.proto = proto
         self.budget = cut
         self.kind = kind
@@ -113,7 +115,8 @@ class GoodPeer(Peer):
                 line, rest = bytes(self.rx).split(b"\n", 1)
                 self.rx = bytearray(rest)
                 req = bytes.fromhex(line.decode())
-                self.emit(reply_for(req).hex().encode() + b"\n")
+                pre = (PENDING.hex().encode() + b"\n") if self.pending and req == REQ else b""
+                self.emit(pre + reply_for(req).hex().encode() + b"\n")
             return
         items = self.d.parse_wire(bytes(self.rx))
         for kind, body in items[self.handled :]:
@@ -121,7 +124,8 @@ class GoodPeer(Peer):
                 self.emit(self.d.connect_frames()[0].raw)
             elif kind == "diag":
                 w = [body]
-                self.emit(self.d.frame("ack1", 1, w).raw + self.d.frame("data:" + reply_for(body).hex(), 1, w).raw)
+                pre = self.d.frame("data:" + PENDING.hex(), 1, w).raw if self.pending and body == REQ else b""
+                self.emit(self.d.frame("ack1", 1, w).raw + pre + self.d.frame("data:" + reply_for(body).hex(), 1, w).raw)
         self.handled = len(items)
 
 
@@ -133,13 +137,14 @@ def reply_for(req: bytes) -> bytes:
     return bytes([0x7F, req[0], 0x11])
 
 
-def full_stream(proto: str) -> bytes:
+def full_stream(proto: str, pending: bool = False) -> bytes:
     """what the peer sends for one complete exchange"""
     if proto in ("tcp", "unix"):
-        return REPLY.hex().encode() + b"\n"
+        return ((PENDING.hex().encode() + b"\n") if pending else b"") + REPLY.hex().encode() + b"\n"
     d = demux.DoIP() if proto == "doip" else demux.HSFZ()
     pre = b"".join(f.raw for f in d.connect_frames())
-    return pre + d.frame("ack1", 1, [REQ]).raw + d.frame("data:" + REPLY.hex(), 1, [REQ]).raw
+    p = d.frame("data:" + PENDING.hex(), 1, [REQ]).raw if pending else b""
+    return pre + d.frame("ack1", 1, [REQ]).raw + p + d.frame("data:" + REPLY.hex(), 1, [REQ]).raw
 
 
 def uri(proto: str) -> str:
@@ -171,7 +176,7 @@ def build(item: dict[str, Any], box: dict[str, Any]) -> Any:
         peers: list[GoodPeer] = []
 
         def factory(n: int) -> Peer | None:
-            p = GoodPeer(proto, cut if n == 0 else None, kind, st)
+            p = GoodPeer(proto, cut if n == 0 else None, kind, st, item.get("pending", False))
             peers.append(p)
             return p
 
@@ -256,12 +261,12 @@ def build(item: dict[str, Any], box: dict[str, Any]) -> Any:
 def judge(item: dict[str, Any], box: dict[str, Any], choices: list[int], res: Result) -> None:
     proto, cut, kind, mode = item["proto"], item["cut"], item["kind"], item["mode"]
     tmo = item.get("timeout")
-    L = len(full_stream(proto))
+    L = len(full_stream(proto, item.get("pending", False)))
     rp = {"item": item, "choices": choices}
     ops = box["ops"]
     ack = ACK_TIME[proto]
     where = f"[{proto} cut={cut}/{L} {kind} timeout={tmo} mode={mode}" + (f" delay={item['delay']} max_retry={item['max_retry']}" if mode == "B" else "") + "]"
-    region = cut_region(proto, cut)
+    region = cut_region(proto, cut, item.get("pending", False))
 
     def v(sig: str, m: str) -> None:
         res.violate(f"C08|{proto}|{sig}", m + " " + where + f" ops={[o[:5] for o in ops]}", rp)
@@ -269,7 +274,7 @@ def judge(item: dict[str, Any], box: dict[str, Any], choices: list[int], res: Re
     if box["status"] != "done":
         pending = {"connect": 0, "write": 1, "read": 2}
         last = ops[-1][0] if ops else "none"
-        blocked = {"none": "connect", "connect": "write", "write": "read", "read": "read2/close", "request": "close"}.get(last, last)
+        blocked = {"none": "connect", "connect": "request" if mode == "B" else "write", "write": "read", "read": "read2/close", "request": "close"}.get(last, last)
         if kind == "silence" and tmo is None and mode != "B" and blocked in ("read", "read2/close", "connect"):
             res.count("admitted_unbounded_wait")
             return  # no timeout requested, peer merely silent: nothing is promised
@@ -361,9 +366,19 @@ def judge(item: dict[str, Any], box: dict[str, Any], choices: list[int], res: Re
         v(f"loop-exception-handler|{kind}|region={region}", f"exceptions reached the loop exception handler: {box['exc_contexts'][:2]}")
 
 
-def cut_region(proto: str, cut: int | None) -> str:
+def cut_region(proto: str, cut: int | None, pending: bool = False) -> str:
     if cut is None:
         return "none"
+    if pending:
+        L = len(full_stream(proto, True))
+        pend_len = L - len(full_stream(proto, False))
+        if proto in ("tcp", "unix"):
+            return "pending" if cut <= pend_len else ("after-pending" if cut < L else "after-reply")
+        d0 = demux.DoIP() if proto == "doip" else demux.HSFZ()
+        a0 = sum(len(f.raw) for f in d0.connect_frames()) + len(d0.frame("ack1", 1, [REQ]).raw)
+        if cut < a0:
+            return cut_region(proto, cut, False)
+        return "pending" if cut <= a0 + pend_len else ("after-pending" if cut < L else "after-reply")
     if proto in ("tcp", "unix"):
         L = len(full_stream(proto))
         return "before-reply" if cut == 0 else ("mid-line" if cut < L else "after-reply")
@@ -431,6 +446,13 @@ def items(tier: str, seed: int) -> list[Any]:
                 for tmo in (None, 2.0):
                     out.append(({"proto": proto, "cut": cut, "kind": kind, "mode": "A", "timeout": tmo}, bound, cap))
                 out.append(({"proto": proto, "cut": cut, "kind": kind, "mode": "C", "timeout": 2.0}, 0, cap))
+                Lp = len(full_stream(proto, True))
+                for cutp in range(0, Lp + 1):  # the peer answers responsePending first, then the reply
+                    for mr in (1, 3):
+                        if cut == 0:  # emit the pending family once per (proto, kind)
+                            out.append(
+                                ({"proto": proto, "cut": cutp, "kind": kind, "mode": "B", "timeout": 2.0, "delay": 0.0, "max_retry": mr, "pending": True}, min(bound, 1), cap)
+                            )
                 for mr in (1, 3):
                     delays = (0.0, 0.05, 0.35, 2.5, 11.0)
                     for delay in delays:
